@@ -11,7 +11,7 @@
          answer: ((<out> ...) (<cookie id left in the file> ...))
 
    read    ::= <bytes> | (<piece> ...)      piece ::= <bytes> | (<count> <bytes>)   (repeated)
-   fixes   ::= (<D09 0|1> <D10a 0|1> <D10b 0|1> <D11 0|1>)     1 = the tree carries the repair
+   fixes   ::= (<D09 0|1> <D10a 0|1> <D10b 0|1> <D11 0|1> <D32 0|1>)     1 = the tree carries the repair
    verdict ::= (0) | (1 <is_str 0|1> <challenge>) | (2)
    out     ::= (0 <line>) | (1 <mechanism> <verdict>) | (2) close | (3) authenticated | (4) exception
    sevent  ::= (0 <reply>) | (1 <mechanism> <verdict>) | (2) disconnect | (3) authenticated | (4)
@@ -21,11 +21,11 @@ Local Open Scope Z_scope.
 
 Definition fixes_of (s : sexp) : option fixes :=
   match s with
-  | SList [a; b; c; d] =>
-      match as_bool a, as_bool b, as_bool c, as_bool d with
-      | Some a, Some b, Some c, Some d =>
-          Some {| fx09 := a; fx10a := b; fx10b := c; fx11 := d |}
-      | _, _, _, _ => None
+  | SList [a; b; c; d; e] =>
+      match as_bool a, as_bool b, as_bool c, as_bool d, as_bool e with
+      | Some a, Some b, Some c, Some d, Some e =>
+          Some {| fx09 := a; fx10a := b; fx10b := c; fx11 := d; fx32 := e |}
+      | _, _, _, _, _ => None
       end
   | _ => None
   end.
